@@ -425,6 +425,25 @@ def r_traversals(ck: Checker) -> None:
     ck.guard("R-CTRLDEP", lambda: check_ctrldep(ck, bfs, m), bfs)
 
 
+def r_gather_not_self(ck: Checker, modname: str = NODE, qual: str = "ASTNode.gather", rule: str = "R-GATHER") -> None:
+    """gather yields descendants (what its traversal yields), never the node it is called on.  Positive pattern: a `yield` of `self`."""
+    f = ck.repo.func(modname, qual)
+    fn = f.raw or f.node
+    bad = None
+    for x in ast.walk(fn):
+        if isinstance(x, ast.Yield) and x.value is not None:
+            v = x.value
+            while isinstance(v, ast.Call) and dotted(v.func) in ("cast", "t.cast", "typing.cast") and v.args:
+                v = v.args[-1]
+            if isinstance(v, ast.Name) and v.id == "self":
+                bad = x
+    what = f"{qual} yields only what the traversal of the descendants yields (the start node is not among them)"
+    if bad is not None:
+        ck.violation(rule, f, bad, what, positive=True, construct=f"{qual}: {norm(bad)[:50]} — the node gather was called on is reported when it matches (and without consulting extra_filter)")
+    else:
+        ck.holds(rule, f, f.node, what)
+
+
 def r_no_early_tables(ck: Checker, rule: str = "R-TYPES-CACHE") -> None:
     """__init_subclass__ runs before the @dataclass decorator has processed the new class: dataclasses.fields(cls) are still those of the
     base.  Asking for the class's field tables there (get_cls_child_fields / get_cls_props / get_cls_all_fields / _populate_type_dicts /
@@ -476,6 +495,7 @@ def run(ck: Checker) -> None:
     ck.guard("R-WORKLIST", lambda: S5.r_mutable_default(ck, "R-WORKLIST", ("pyoak.node",)))
     ck.guard("R-WORKLIST", lambda: S5.r_late_binding(ck, "R-WORKLIST", ("pyoak.node",)))
     ck.guard("R-TYPES-CACHE", lambda: r_no_early_tables(ck))
+    ck.guard("R-GATHER", lambda: r_gather_not_self(ck))
     from . import state_rules as S_
     ck.guard("R-WORKLIST", lambda: S_.r_unstable_key(ck, "R-WORKLIST", [(NODE, "ASTNode.dfs"), (NODE, "ASTNode.bfs"), (NODE, "ASTNode.gather")], "a traversal enumerates the tree as it is now"))
     ck.require_count("R-WORKLIST", 3 + 3 + 6 + 2)
